@@ -231,14 +231,13 @@ class LazyEvaluatedKernelTensor(LinearOperator):
         if len(batch_indices) == 0 or all(ind == slice(None, None, None) for ind in batch_indices):
             new_kernel = self.kernel  # Avoid unnecessary copying when we aren't explicitly indexing batch dims
         else:
-            try:
-                new_kernel = self.kernel.__getitem__(batch_indices)
-            # We're going to handle multi-batch indexing with a try-catch loop
-            # This way - in the default case, we can avoid doing expansions of self.kernel which can be
-            # costly in terms of time
-            except IndexError:
-                expanded_kernel = self.kernel.expand_batch(batch_shape)
-                new_kernel = expanded_kernel.__getitem__(batch_indices)
+            # As for x1 and x2: a kernel whose batch shape is only broadcast against the operator's (fewer or size-1
+            # dimensions) must be expanded before it is indexed, or the indices silently select the wrong parameters.
+            # A kernel without batch shape is shared by all batch elements.
+            kernel = self.kernel
+            if len(kernel.batch_shape) and kernel.batch_shape != batch_shape:
+                kernel = kernel.expand_batch(batch_shape)
+            new_kernel = kernel.__getitem__(batch_indices)
 
         # Now construct a kernel with those indices
         return self.__class__(
